@@ -699,8 +699,30 @@ def gen_ref_program(rng, missing=False):
         parts, rl = [], []
         size = 0
         for _ in range(rng.randint(1, 2)):
-            form = rng.choice(["unicode", "unicode", "urange", "glyphid", "grange", "uplus"] + (["ps"] if post_names else []))
-            if form == "unicode":
+            form = rng.choice(["unicode", "unicode", "urange", "glyphid", "grange", "uplus"] + (["ps"] if post_names else [])
+                              + (["cpchar", "cpcrange", "cpstr", "cpnrange"] if kind != "symbol" else []))
+            letters = [c for c in cps if 0x61 <= c <= 0x7A]
+            if form in ("cpchar", "cpcrange", "cpstr", "cpnrange") and len(letters) < 4:
+                form = "unicode"
+            if form == "cpchar":          # codepoint() with character literals: ASCII code points are their own Unicode values
+                l = rng.sample(letters, rng.randint(1, 3))
+                parts.append(", ".join("codepoint('%c')" % c for c in l))     # (one literal per codepoint(): a list is a syntax error)
+                rl.append({"k": "unicode", "v": l})
+                size += len(l)
+            elif form == "cpstr":
+                l = rng.sample(letters, rng.randint(2, 4))
+                parts.append('codepoint("%s")' % "".join(chr(c) for c in l))
+                rl.append({"k": "unicode", "v": l})
+                size += len(l)
+            elif form in ("cpcrange", "cpnrange"):
+                a = rng.choice(letters[:-3])
+                b = a + rng.randint(1, 3)
+                while any(c not in cmap for c in range(a, b + 1)) and b > a:
+                    b -= 1
+                parts.append(("codepoint('%c'..'%c')" % (a, b)) if form == "cpcrange" else ("codepoint(0x%x..%d)" % (a, b)))
+                rl.append({"k": "urange", "a": a, "b": b})
+                size += b - a + 1
+            elif form == "unicode":
                 l = rng.sample(cps, rng.randint(1, 3))
                 parts.append("unicode(%s)" % ", ".join("0x%x" % c for c in l))
                 rl.append({"k": "unicode", "v": l})
